@@ -60,10 +60,10 @@ def build(repo):
     env = dict(os.environ)
     env['RUSTFLAGS'] = (env.get('RUSTFLAGS', '') + ' --cfg hohav_peppi_verif').strip()
     env['CARGO_NET_OFFLINE'] = 'true'
-    p = subprocess.run(['cargo', 'build', '--offline', '--quiet'], cwd=dst, env=env, stdout=subprocess.PIPE, stderr=subprocess.STDOUT, text=True, timeout=900)
+    p = subprocess.run(['cargo', 'build', '--offline', '--quiet', '--release'], cwd=dst, env=env, stdout=subprocess.PIPE, stderr=subprocess.STDOUT, text=True, timeout=900)
     if p.returncode != 0:
         raise RuntimeError('replay crate does not build: ' + p.stdout[-800:])
-    return os.path.join(dst, 'target', 'debug', 'peppi-verif-replay')
+    return os.path.join(dst, 'target', 'release', 'peppi-verif-replay')
 
 
 def known_ids(prop):
@@ -97,11 +97,21 @@ def search(prop, unit, failure, repo):
     return None
 
 
-def explore(prop, repo):
-    """thorough tier: run every native search of the property unconditionally.  -> list of dict(cmd, status, detail, wall_s, witness)"""
+# searches too slow for the quick tier (they still run when a proof fails or is undecided, and always in the thorough tier)
+SLOW = ('c02-search', 'c07s-search')
+# cheap stand-ins explored in the quick tier for the properties whose own search is slow
+QUICK_EXTRA = {'C02': ['c14-search', 'c10s-search', 'c18-search']}
+
+
+def explore(prop, repo, quick=False):
+    """Run the native searches of the property unconditionally (thorough tier: all of them; quick tier: the cheap ones).
+    -> list of dict(cmd, status, detail, wall_s, witness)"""
     import time
     res = []
-    for cmd in SEARCHES.get(prop, []) + EXTRA_THOROUGH.get(prop, []):
+    cmds = SEARCHES.get(prop, []) + EXTRA_THOROUGH.get(prop, [])
+    if quick:
+        cmds = [c for c in cmds if c not in SLOW] + [c for c in QUICK_EXTRA.get(prop, []) if c not in cmds]
+    for cmd in cmds:
         t0 = time.time()
         try:
             rc, out = run_replay(repo, [cmd], timeout=1800, known=known_ids(prop))
